@@ -686,7 +686,7 @@ func (c *compiler) evalCallExpression(node *ast.CallExpression) (interface{}, er
 		}
 
 		rc := reflect.ValueOf(c)
-		if !rc.IsValid() {
+		if !rc.IsValid() || (rc.Kind() == reflect.Ptr && rc.IsNil()) {
 			return nil, fmt.Errorf("'%s' is nil, cannot call %s on it", node.Callee.String(), node.Function.String())
 		}
 		mname := node.Function.String()
